@@ -97,6 +97,40 @@ func (p *Prog) resolveChanParams() {
 	}
 }
 
+// freshFromCtor: the access is rooted at the result of a call, made in the same function, of
+// a module function every return of which yields an object it has just allocated and has
+// not published.
+func (p *Prog) freshFromCtor(v ssa.Value) bool {
+	for i := 0; i < 10; i++ {
+		switch x := v.(type) {
+		case *ssa.FieldAddr:
+			v = x.X
+			continue
+		case *ssa.Call:
+			sc := x.Call.StaticCallee()
+			if sc == nil || len(sc.Blocks) == 0 || !p.InScope(sc) {
+				return false
+			}
+			n := 0
+			ok := true
+			EachInstr(sc, func(in ssa.Instruction) {
+				ret, isRet := in.(*ssa.Return)
+				if !isRet || len(ret.Results) == 0 || in.Block() == sc.Recover {
+					return
+				}
+				n++
+				al, isAl := ret.Results[0].(*ssa.Alloc)
+				if !isAl || !al.Heap || len(escapePoints(al)) > 0 {
+					ok = false
+				}
+			})
+			return ok && n > 0
+		}
+		return false
+	}
+	return false
+}
+
 // classifyClose decides which close-once idiom a builtin close(x) follows ("" = none).
 func (p *Prog) classifyClose(fn *ssa.Function, in ssa.Instruction, c *ssa.CallCommon) (string, string) {
 	arg := c.Args[0]
@@ -121,6 +155,10 @@ func (p *Prog) classifyClose(fn *ssa.Function, in ssa.Instruction, c *ssa.CallCo
 		if al := freshRoot(fa); al != nil {
 			return "fresh-object", "channel of an object allocated in the same function"
 		}
+	}
+	// I6c: … or freshly built by a private constructor called in this function
+	if fa != nil && p.freshFromCtor(fa) {
+		return "fresh-object", "channel of an object a private constructor has just built for this function"
 	}
 	// I3: swap — the closed value is the old value of a field that this function replaces
 	// with a fresh channel under a common lock
@@ -885,10 +923,18 @@ func queueSwapWakes(p *Prog, r *Report, R string, inPkg func(rel string) bool) {
 			}
 			n++
 			ok = false
+			var closes Sel
 			for _, c := range evs {
-				if c.Kind == "close" && c.In.Block() == e.In.Block() && len(c.Args) == 1 && strings.HasSuffix(c.Args[0], ".sizeQ") && strings.HasPrefix(c.Args[0], base+".") {
-					ok = true
+				if c.Kind == "close" && len(c.Args) == 1 && strings.HasSuffix(c.Args[0], ".sizeQ") && strings.HasPrefix(c.Args[0], base+".") {
+					closes = append(closes, c)
+					if c.In.Block() == e.In.Block() {
+						ok = true
+					}
 				}
+			}
+			if !ok && len(closes) > 0 {
+				// not in the same block: then on every path from the replacement to the return
+				ok, _ = NewQ(p, r).mustPass(e.In, closes)
 			}
 			r.Check(ok, R, p.FuncName(fn)+"/"+e.What, p.InstrPos(e.In), "the old sizeQ is closed in the step that replaces the queue", "the queue "+e.What+" is replaced without (unconditionally, in the same step) closing the object's sizeQ: a call blocked on the old channel is never woken and misses everything sent to the new one")
 		}
